@@ -11,7 +11,7 @@ from .. import smc_common as sc
 
 ID = "C08"
 LEVEL = "exploration"
-BUDGET = {"quick": 700, "thorough": 45000}
+BUDGET = {"quick": 500, "thorough": 36000}
 SHARDS = {"quick": 8, "thorough": 16}
 RULE = (
     "case = SMC run (table proposal/likelihood, frozen or random-walk kernel double, any schedule option, namespace, "
@@ -19,7 +19,7 @@ RULE = (
     "r_t = log-mean-exp((beta_t-beta_{t-1})(l+pi-q)) and variance v_t = Var(u)/(N mean(u)^2) recomputed in float64 "
     "from history.sample_history[t-1] and history.beta must equal history.log_norm_ratio[t], log_norm_ratio_var[t]; "
     "returned log_evidence == sum r_t, log_evidence_error == sqrt(sum v_t). Metamorphic (bitwise): same seeds "
-    "with / without n_final_samples, with / without a checkpoint callback at the generated cadence => identical evidence; "
+    "with / without n_final_samples, with / without a checkpoint callback at the generated cadence, resumed from one of those checkpoints, interrupted at a generated likelihood call and resumed => identical evidence; "
     "another generator seed leaves r_1 unchanged. Non-trivial = >=2 iterations with non-constant incremental weights."
 )
 ASSUMPTIONS = [
@@ -111,8 +111,21 @@ def run_case(case, ctx):
                                      f"{float(env.to_np(r2.samples.log_evidence))!r}", case)
     # (b) checkpointing on
     states = []
-    r3 = sc.run(case, extra_kwargs={"checkpoint_callback": lambda s: states.append(s.get("iteration")),
-                                    "checkpoint_every": case["ckpt_every"]})
+    live = []
+
+    def _cb(st_):
+        states.append(st_.get("iteration"))
+        live.append(st_)  # the state object itself, kept while the run goes on
+
+    n_calls = [0]
+
+    def _counting(fn):
+        def wrapped(samples):
+            n_calls[0] += 1
+            return fn(samples)
+        return wrapped
+
+    r3 = sc.run(case, extra_kwargs={"checkpoint_callback": _cb, "checkpoint_every": case["ckpt_every"]}, likelihood_wrapper=_counting)
     if r3.error is None and not r3.budget_hit:
         if _bits(r3.samples.log_evidence) + _bits(r3.samples.log_evidence_error) != base_bits:
             ctx.fail("meta:checkpoint", f"evidence changed when a checkpoint callback (every {case['ckpt_every']}) was added: "
@@ -121,6 +134,45 @@ def run_case(case, ctx):
             ctx.fail("meta:checkpoint", "checkpoint callback was never invoked", case)
     elif r3.error is not None:
         ctx.fail("meta:checkpoint-raised", f"adding a checkpoint callback made the run raise {r3.error!r}", case)
+    # (b') resumed from one of those checkpoints (the state object kept in memory): same evidence, bitwise
+    if live and r3.error is None and not r3.budget_hit:
+        k = case["seed2"] % len(live)
+        r5 = sc.run(case, extra_kwargs={"resume_from": live[k]})
+        if r5.error is None and not r5.budget_hit:
+            if _bits(r5.samples.log_evidence) + _bits(r5.samples.log_evidence_error) != base_bits:
+                ctx.fail("meta:resumed", f"evidence of the run resumed from the checkpoint of iteration {states[k]} differs from the uninterrupted run: "
+                                         f"{float(env.to_np(r5.samples.log_evidence))!r} vs {lz!r} ({len(r5.history.log_norm_ratio)} vs {len(ratios)} recorded ratios)", case)
+            labels.append("resumed")
+    # (b'') interrupted inside an iteration (the user's likelihood raises at a generated call), then resumed from the last state object
+    if n_calls[0] > 2 and r3.error is None and not r3.budget_hit:
+        j = 1 + case["seed2"] % (n_calls[0] - 1)
+        live2, seen = [], [0]
+
+        class _Fault(Exception):
+            pass
+
+        def _faulting(fn):
+            def wrapped(samples):
+                seen[0] += 1
+                if seen[0] == j + 1:
+                    raise _Fault()
+                return fn(samples)
+            return wrapped
+
+        r6 = sc.run(case, extra_kwargs={"checkpoint_callback": live2.append, "checkpoint_every": case["ckpt_every"]}, likelihood_wrapper=_faulting)
+        if isinstance(r6.error, _Fault) and live2:
+            r7 = sc.run(case, extra_kwargs={"resume_from": live2[-1]})
+            if r7.error is None and not r7.budget_hit:
+                if _bits(r7.samples.log_evidence) + _bits(r7.samples.log_evidence_error) != base_bits:
+                    ctx.fail("meta:interrupted-resumed", f"run interrupted at likelihood call {j} and resumed from its last checkpoint (iteration "
+                                                         f"{live2[-1].get('iteration')}) returns evidence {float(env.to_np(r7.samples.log_evidence))!r}, uninterrupted {lz!r} "
+                                                         f"({len(r7.history.log_norm_ratio)} vs {len(ratios)} recorded ratios)", case)
+                labels.append("interrupted+resumed")
+        elif r6.error is not None and not isinstance(r6.error, _Fault):
+            from ..runner import aspire_frame
+
+            if aspire_frame(r6.error) is None:
+                raise r6.error
     # (c) other generator seed: first ratio is computed before any resampling
     c4 = dict(case)
     c4["seed"] = case["seed2"]
